@@ -83,6 +83,9 @@ type WSpec struct {
 }
 
 func (w *WSpec) proc(name string) *ProcSpec {
+	if w == nil {
+		return nil // the command hook of a native run has no scenario description
+	}
 	for i := range w.Procs {
 		if w.Procs[i].Name == name {
 			return &w.Procs[i]
